@@ -73,6 +73,8 @@ def looser_chain(mode: MatchingMode, scores: List[float], r) -> List[float]:
     if r.random() < 0.25:
         # values exactly representable in single precision, so that the chain can also be spelled with numpy scalars
         picks = sorted(set(float(np.float32(p)) for p in picks))
+    if not iou and r.random() < 0.4:
+        picks.append(float("inf"))  # "match at any distance": the loosest distance threshold there is
     return list(reversed(picks)) if iou else picks
 
 
@@ -192,7 +194,7 @@ def run(ctx: Ctx) -> None:
                     ctx.case(("results", str(mode), c["case"]["policy"], min(flips, 3), min(len(results), 3)), nontrivial=flips > 0, sample=dict(info, flips=flips) if idx < 2 and mode == MatchingMode.IOU2D else None)
                 # the same threshold values reused across modes on the same result objects (judgements of one mode
                 # must not leak into another): shared grids, modes in random order
-                coarse_d, fine_d = [0.0, 0.5, 1.0, 2.0, 4.0, 1e6], [0.0, 0.25, 0.5, 0.75, 1.0, 1.5, 2.0, 3.0, 4.0, 1e6]
+                coarse_d, fine_d = [0.0, 0.5, 1.0, 2.0, 4.0, 1e6, float("inf")], [0.0, 0.25, 0.5, 0.75, 1.0, 1.5, 2.0, 3.0, 4.0, 1e6, float("inf")]
                 coarse_i, fine_i = [1.0, 0.5, 0.25, 0.0], [1.0, 0.75, 0.5, 0.35, 0.25, 0.1, 0.0]
                 swap = r.random() < 0.5  # grids overlap only partly, so a leaked judgement shows as a lost TP
                 grids = {MatchingMode.CENTERDISTANCE: fine_d if swap else coarse_d, MatchingMode.PLANEDISTANCE: coarse_d if swap else fine_d, MatchingMode.IOU2D: fine_i if swap else coarse_i, MatchingMode.IOU3D: coarse_i if swap else fine_i}
